@@ -141,7 +141,7 @@ func propC17(c *Ctx, r *Report) {
 				}
 				okk := false
 				for _, t := range tests {
-					if blockOrDom(t.N, ret.Block()) {
+					if nilEdgeDom(t, ret.Block()) {
 						okk = true
 					}
 				}
